@@ -68,7 +68,8 @@ LEVEL_NOTE = ('Trusted: the capture queue / recording session+validator subclass
 TECHNIQUE = 'runtime monitoring: end-to-end differential hop (envelope in vs envelope out) through the real relay and edge'
 RULE = ('case = one relay+edge pair (transport x server configuration) and 1 or 3 messages (3 = connection reuse, '
         'idle_timeout set, sequential or concurrent submission); evaluation = one Relay.attempt (one hop). A designed '
-        'grid (every configuration x every address class, scripted reply codes) comes first, then seeded random '
+        'grid (every configuration -- incl. implicit TLS, https and the WsgiEdge built through its listener= '
+        'argument -- x every address class / body kind, scripted reply codes) comes first, then seeded random '
         'cases: sender/recipients from a grammar of valid addresses (plain, atext specials, quoted local parts with '
         '> @ space , < ; and quoted-pairs \\" \\\\, UTF-8 local parts/domains, null sender, 64-octet local parts, '
         'address literals), 1..5 recipients incl. duplicates, header blocks of 1..6 fields (folded, 8-bit, duplicate '
@@ -91,7 +92,13 @@ ASSUMPTIONS = ['LMTP: the library has no LMTP-receiving edge; the LMTP leg is ju
                'a non-ASCII address offered to a server that does not advertise SMTPUTF8, and 8-bit data offered to '
                'one that does not advertise 8BITMIME, may be refused in any way (error result or exception); only '
                '"arrives altered" and "reported delivered but not received" refute',
-               'SIZE with a small limit: messages within 60 bytes of the limit are judged on consistency only']
+               'SIZE with a small limit: messages within 60 bytes of the limit are judged on consistency only',
+               'configuration class: AUTH PLAIN/LOGIN is offered only together with TLS (the library\'s server refuses '
+               'them 504 on a clear channel by design; CRAM-MD5 is used in clear) and relay credentials are not '
+               'combined with the HELO fall-back (no AUTH without EHLO); the edge\'s auth= argument is given as bytes '
+               'names (the documented str names make SASLAuth.named raise KeyError -- noted, not judged here)',
+               'HTTP: connection reuse is judged on intact / un-mixed arrival only (the number of TCP connections is '
+               'not observed); the reply text is not compared, only the code and the permanent/transient class']
 REQUIRED_HITS = ['smtp-hop-delivered', 'http-hop-delivered', 'lmtp-hop-delivered', 'sender-compared',
                  'recipients-compared', 'content-compared', 'extensions-compared', 'reply-code-compared',
                  'per-recipient-rejection-judged', 'reuse-one-connection', 'tls-hop', 'auth-hop', 'helo-fallback-hop']
@@ -501,7 +508,9 @@ HTTP_GRID = [
     ('http-reuse', {'reuse': True, 'https': False, 'concurrent': False}),
     ('http-reuse-concurrent', {'reuse': True, 'https': False, 'concurrent': True}),
     ('https', {'reuse': False, 'https': True, 'concurrent': False}),
-    # the edge built and started through its documented listener= argument instead of build_server()
+]
+# designed only (3 cases each): the edge built and started through its documented listener= argument
+HTTP_LISTENER_GRID = [
     ('http-listener', {'reuse': False, 'https': False, 'concurrent': False, 'listener': True}),
     ('https-listener', {'reuse': True, 'https': True, 'concurrent': False, 'listener': True}),
 ]
@@ -611,6 +620,11 @@ def all_cases(tier, seed):
                 yield make_case(rnd, n, transport, label, cfg, envs,
                                 ['utf8text' if cfg.get('encoder') else 'plain', 'dots', 'nofinal'], scripted=False)
                 n += 1
+    for label, cfg in HTTP_LISTENER_GRID:
+        for ai in (0, 2, 6):
+            rnd = random.Random('c06-grid-%d' % n)
+            yield make_case(rnd, n, 'http', label, cfg, [GRID_ADDRS[ai]], ['plain', 'dots', '8bit'], scripted=False)
+            n += 1
     # designed: every configuration x every body kind, plain addresses with 2 recipients
     for transport, grid in (('smtp', SMTP_GRID), ('lmtp', LMTP_GRID), ('http', HTTP_GRID)):
         for label, cfg in grid:
@@ -977,10 +991,9 @@ class HttpLab(Lab):
             pass
         if self.own is not None:
             try:
-                self.server.stop(timeout=1)
+                self.own.kill()          # EdgeServer.kill(): stops the listening server
             except Exception:
                 pass
-            self.own.kill(block=False) if hasattr(self.own, 'dead') and not self.own.dead else None
             return
         self.edge.queue = None
 
@@ -1053,15 +1066,16 @@ def address_mechanism(transport, addr, code, stage):
     f = addr_features(addr)
     if transport == 'smtp' and 'qp-dquote' in f and code == '501':
         return M_QP_REFUSED
-    return 'unclassified/%s/valid-address-refused/%s/%s-%s' % (transport, '+'.join(f), stage, code)
+    return 'unclassified/%s/valid-address-refused/%s-%s' % (transport, stage, code)
 
 
 def altered_mechanism(transport, which, want, got):
     f = addr_features(want)
-    if transport == 'smtp' and 'qp-dquote' in f and 'q-gt' in f and isinstance(got, str) and want.startswith(got) \
+    if transport == 'smtp' and 'q-gt' in f and isinstance(got, str) and want.startswith(got) \
             and len(got) < len(want) and want[len(got)] == '>':
-        return M_QP_TRUNC
-    return 'unclassified/%s/%s-altered/%s' % (transport, which, '+'.join(f))
+        # cut at a '>' that stands inside the quoted local part
+        return M_QP_TRUNC if 'qp-dquote' in f else 'smtp/address/cut-at-gt-inside-quoted-local-part'
+    return 'unclassified/%s/%s-altered' % (transport, which)
 
 
 def content_mechanism(transport, cfg, orig, got, bclass):
@@ -1081,10 +1095,10 @@ def content_mechanism(transport, cfg, orig, got, bclass):
     if part == 'body' and transport != 'http':
         # which framing feature is involved?
         if len(bg) < len(bo) and bo.startswith(bg.rstrip(b'\r\n')):
-            return '%s/content-altered/body-truncated/%s' % (transport, '+'.join(bclass))
+            return '%s/content-altered/body-truncated' % transport
         if bo.replace(b'\n.', b'\n') == bg.replace(b'\n.', b'\n') or bo.lstrip(b'.') == bg.lstrip(b'.'):
-            return '%s/content-altered/dot-stuffing/%s' % (transport, '+'.join(bclass))
-    return 'unclassified/%s/content-altered/%s/%s' % (transport, part, '+'.join(bclass))
+            return '%s/content-altered/dot-stuffing' % transport
+    return 'unclassified/%s/content-altered/%s' % (transport, part)
 
 
 def check_converted(orig, got, encoder):
@@ -1131,7 +1145,8 @@ class Judge(object):
         if sender != msg['sender']:
             R.violation(altered_mechanism(t, 'sender', msg['sender'], sender),
                         '%s hop: sender arrived altered: sent %r, edge received %r' % (t, msg['sender'], sender),
-                        self.wit(msg, sent_sender=msg['sender'], received_sender=sender))
+                        self.wit(msg, sent_sender=msg['sender'], received_sender=sender,
+                                 address_class=addr_features(msg['sender'])))
         R.hit('recipients-compared')
         if rcpts != want_rcpts:
             mech = None
@@ -1143,13 +1158,13 @@ class Judge(object):
                     mech = M_QP_TRUNC
             if mech:
                 pass
+            elif isinstance(rcpts, list) and sorted(rcpts) == sorted(want_rcpts):
+                mech = '%s/recipients/order-changed' % t
             elif isinstance(rcpts, list) and len(rcpts) == len(want_rcpts):
                 for w, g in zip(want_rcpts, rcpts):
                     if w != g:
                         mech = altered_mechanism(t, 'recipient', w, g)
                         break
-            elif isinstance(rcpts, list) and sorted(rcpts) == sorted(want_rcpts):
-                mech = 'unclassified/%s/recipient-order-changed' % t
             elif isinstance(rcpts, list) and len(rcpts) < len(want_rcpts):
                 mech = 'unclassified/%s/recipient-dropped' % t
             R.violation(mech or 'unclassified/%s/recipient-list-differs' % t,
@@ -1170,7 +1185,7 @@ class Judge(object):
         R.violation(content_mechanism(t, self.cfg, orig, content, bclass),
                     '%s hop: content arrived altered (%d bytes sent, %d received; body class %s)'
                     % (t, len(orig), len(content), '+'.join(bclass)),
-                    self.wit(msg, original=orig, received=content))
+                    self.wit(msg, original=orig, received=content, body_class=bclass))
 
     # ---- extension tables
     def extensions(self, adverts, views, configured):
